@@ -28,7 +28,7 @@ FAULT_KINDS = ["disk_write", "disk_remove", "disk_mkdir_over", "disk_nonutf8", "
                "proto_unknown_request", "proto_request_closed_doc", "burst"]
 PROBES = ["parse_error_then_valid", "valid_then_parse_error", "close_then_reopen", "duplicate_open", "change_never_opened", "request_closed_document",
           "position_beyond_last_line", "non_ascii_line", "crlf_text", "burst_ge_8", "disk_fault_then_close", "strict_final_compared",
-          "fmt_oracle_rejects", "fmt_oracle_accepts", "build_oracle_succeeds", "definition_answered", "hover_answered", "semtok_nonempty",
+          "fmt_oracle_rejects", "fmt_oracle_accepts", "build_oracle_succeeds", "overlay_episode_closed", "final_probes_compared", "definition_answered", "hover_answered", "semtok_nonempty",
           "wssym_nonempty", "completion_nonempty", "non_file_uri"]
 REQS = ["hover", "definition", "completion", "semtok", "wssym"]
 
@@ -91,6 +91,24 @@ def generate(rng, tier, idx):
     last_text = {}  # doc index -> last text the client sent (for position sampling on closed docs)
     lib_open = set()
     fav_req = rng.sample(REQS, rng.between(1, 4))
+    if mode["strict"] and ws and rng.chance(35):
+        # an "overlay episode" that is over before anything else happens: a library is opened with unsaved text, poked at, and closed
+        # again without touching the disk.  didClose re-reads the file, so afterwards the server must be indistinguishable from a fresh one.
+        j = rng.below(len(ws))
+        session.append({"m": "open_lib", "lib": j, "text": gen_ucg.mutate(rng, ws[j]["text"]), "unsaved": True, "episode": True})
+        cur = session[-1]["text"]
+        for _ in range(rng.between(0, 3)):
+            if rng.chance(40):
+                cur = gen_ucg.mutate(rng, cur) if rng.chance(60) else gen_ucg.gen_text(rng, ())[1]
+                session.append({"m": "change_lib", "lib": j, "text": cur})
+            else:
+                kind = rng.choice(["hover", "definition", "completion", "semtok"])
+                if kind == "semtok":
+                    session.append({"m": "semtok", "lib": j})
+                else:
+                    pc, line, ch = gen_ucg.sample_position(rng, cur)
+                    session.append({"m": kind, "lib": j, "line": line, "ch": ch, "pc": pc})
+        session.append({"m": "close_lib", "lib": j})
     for step in range(nmsg):
         opened = sorted(state)
         choices = [("open", 5 if len(opened) < ndocs else 1), ("change", 8 if opened else 0), ("close", 2 if opened else 0),
@@ -190,7 +208,17 @@ def generate(rng, tier, idx):
             else:
                 session.append({"m": "odd", "kind": kind, "doc": i})
             continue
-    return {"workspace": ws, "docs": docs, "mode": mode, "session": session, "nested": nested, "root_uri": not (mode["protocol"] and rng.chance(10))}
+    # strict mode: probe requests put to the session's server and to a fresh server at the very end; the answers must agree
+    final_probes = []
+    if mode["strict"]:
+        for i in sorted(state):
+            for _ in range(rng.between(1, 4)):
+                kind = rng.choice(["hover", "definition", "completion", "hover", "definition"])
+                pc, line, ch = gen_ucg.sample_position(rng, state[i])
+                final_probes.append({"doc": i, "m": kind, "line": line, "ch": ch, "pc": pc})
+            final_probes.append({"doc": i, "m": "semtok"})
+    return {"workspace": ws, "docs": docs, "mode": mode, "session": session, "nested": nested, "root_uri": not (mode["protocol"] and rng.chance(10)),
+            "final_probes": final_probes}
 
 
 def render(world):
@@ -346,6 +374,7 @@ def execute(world, sb, res):
     keyseq = []
     text_bearing = {}
     had_fault = False
+    unsaved_libs = set()
     history = res.history
 
     def text_of(uri, snapshot=None):
@@ -501,7 +530,22 @@ def execute(world, sb, res):
                 text_bearing[uri] = text_bearing.get(uri, 0) + 1
                 if m == "open_lib" and msg.get("unsaved"):
                     had_fault = True
+                    unsaved_libs.add(uri)
                 keyseq.append([m, msg.get("cls", "lib")])
+            elif m == "change_lib":
+                uri = lib_uris[msg["lib"]]
+                srv.notify("textDocument/didChange", {"textDocument": {"uri": uri, "version": mi}, "contentChanges": [{"text": msg["text"]}]})
+                buffers[uri] = msg["text"]
+                pending.append({"type": "diag", "kind": "change", "uri": uri, "text": msg["text"], "texts": dict(buffers)})
+                keyseq.append(["change_lib"])
+            elif m == "close_lib":
+                uri = lib_uris[msg["lib"]]
+                srv.notify("textDocument/didClose", {"textDocument": {"uri": uri}})
+                buffers.pop(uri, None)
+                ever_closed.add(uri)
+                pending.append({"type": "diag", "kind": "close", "uri": uri, "text": None, "texts": dict(buffers)})
+                res.probe("overlay_episode_closed")
+                keyseq.append(["close_lib"])
             elif m == "change":
                 uri = uris[msg["doc"]]
                 if uri not in buffers:
@@ -533,7 +577,7 @@ def execute(world, sb, res):
                 pending.append({"type": "diag", "kind": "close", "uri": uri, "text": None, "texts": dict(buffers)})
                 keyseq.append(["close"])
             elif m in ("hover", "definition", "completion"):
-                uri = uris[msg["doc"]]
+                uri = uris[msg["doc"]] if "doc" in msg else lib_uris[msg["lib"]]
                 if uri not in buffers:
                     res.probe("request_closed_document")
                     res.fault("proto_request_closed_doc")
@@ -544,7 +588,7 @@ def execute(world, sb, res):
                 pending.append({"type": "resp", "kind": m, "id": rid, "uri": uri, "texts": dict(buffers)})
                 keyseq.append([m, msg["pc"]])
             elif m == "semtok":
-                uri = uris[msg["doc"]]
+                uri = uris[msg["doc"]] if "doc" in msg else lib_uris[msg["lib"]]
                 if uri not in buffers:
                     res.probe("request_closed_document")
                     res.fault("proto_request_closed_doc")
@@ -625,7 +669,7 @@ def execute(world, sb, res):
                 res.probe("fmt_oracle_accepts")
 
         # ---- strict-history mode: (c) fresh-server equality and (e) builds => no diagnostics ------
-        strict_ok = mode["strict"] and not tainted
+        strict_ok = mode["strict"] and not tainted and not (unsaved_libs & set(buffers))
         if strict_ok:
             for uri in sorted(buffers):
                 if uri in lib_uris:
@@ -633,11 +677,27 @@ def execute(world, sb, res):
                 final = buffers[uri]
                 got = last_diag.get(uri)
                 fresh = lsp_client.Server(sb, root)
+                probe_pairs = []
                 try:
                     fresh.initialize(world.get("root_uri", True))
                     fresh.notify("textDocument/didOpen", {"textDocument": {"uri": uri, "languageId": "ucg", "version": 1, "text": final}})
                     fm = fresh.recv()
                     want = fm.get("params", {}).get("diagnostics")
+                    # the same probe requests to both servers: answers come from the current text only
+                    for pr in world.get("final_probes", []):
+                        if uris[pr["doc"]] != uri:
+                            continue
+                        params = {"textDocument": {"uri": uri}}
+                        if pr["m"] != "semtok":
+                            params["position"] = {"line": pr["line"], "character": pr["ch"]}
+                        answers = []
+                        for server in (srv, fresh):
+                            rid = server.request(lsp_client.REQUEST_METHODS[pr["m"]], params)
+                            r = server.recv()
+                            if r.get("id") != rid:
+                                raise lsp_client.NoReply("unexpected message instead of the reply to %s: %r" % (pr["m"], r))
+                            answers.append(canon_reply(sb, pr["m"], r).get("result"))
+                        probe_pairs.append((pr, answers[0], answers[1]))
                     fresh.shutdown()
                 except (lsp_client.ServerDied, lsp_client.NoReply) as e:
                     res.violate("C20.died", "fresh-open", "a fresh server died on a single didOpen: %s\ntext: %r\n%s" % (e, final[:600], fresh.stderr_text()[-500:]))
@@ -645,6 +705,13 @@ def execute(world, sb, res):
                 finally:
                     fresh.kill()
                 res.probe("strict_final_compared")
+                for pr, a_sess, a_fresh in probe_pairs:
+                    res.probe("final_probes_compared")
+                    if a_sess != a_fresh:
+                        res.violate("C20.answer-history-dependent", pr["m"], "%s at (%s,%s) of the final text is answered differently by the session's server and by a fresh server "
+                                    "opened on that text\nsession: %s\nfresh:   %s\nfinal text: %r\n%s" % (
+                                        pr["m"], pr.get("line"), pr.get("ch"), json.dumps(a_sess)[:600], json.dumps(a_fresh)[:600], final[:800], ctx()))
+                        break
                 if got != want:
                     res.violate("C20.history-dependent", "strict", "diagnostics after the session differ from a fresh server opened on the final text\n"
                                 "session: %r\nfresh:   %r\nfinal text: %r\n%s" % (got, want, final[:800], ctx()))
@@ -716,6 +783,12 @@ def shrink_candidates(world):
             yield dict(w, session=s[:i] + s[i + 1:])
     if w["mode"]["burst"] != 1:
         yield dict(w, mode=dict(w["mode"], burst=1))
+    fp = w.get("final_probes", [])
+    if len(fp) > 1:
+        for i in range(len(fp)):
+            yield dict(w, final_probes=[fp[i]])
+    elif fp:
+        yield dict(w, final_probes=[])
     for i in range(len(w["workspace"]) - 1, -1, -1):
         used = any(m.get("m") == "open_lib" for m in s)
         if not used:
